@@ -76,7 +76,7 @@ def make_doc(kind_index):
               PType("BX_T", "Integer", IntEnc(8))):
         ptypes[p.name] = p
     for p in (Param("B_CNT", "BCNT_T"), Param("B_F", "BF_T"), Param("P_SEL", "BSEL_T"), Param("P_X", "BX_T"), Param("P_Y", "BX_T"),
-              Param("R_SEL", "BSEL_T"), Param("R_T", "BCNT_T"), Param("R_M", "BX_T")):
+              Param("R_SEL", "BSEL_T"), Param("R_T", "BCNT_T"), Param("R_M", "BX_T"), Param("M_X", "BX_T")):
         params[p.name] = p
     conts = (Container("CCSDSPacket", header_entries(), abstract=True),
              Container("A", a_entries, base="CCSDSPacket", criteria=(Cmp("PKT_APID", "==", "1"),)),
@@ -88,7 +88,9 @@ def make_doc(kind_index):
              # one APID, ONE field set, two field orders (two revisions of a layout): still one dataset
              Container("R", (("p", "R_SEL"),), base="CCSDSPacket", criteria=(Cmp("PKT_APID", "==", "4"),)),
              Container("RA", (("p", "R_T"), ("p", "R_M")), base="R", criteria=(Cmp("R_SEL", "==", "0"),)),
-             Container("RB", (("p", "R_M"), ("p", "R_T")), base="R", criteria=(Cmp("R_SEL", "!=", "0"),)))
+             Container("RB", (("p", "R_M"), ("p", "R_T")), base="R", criteria=(Cmp("R_SEL", "!=", "0"),)),
+             # every other APID: one byte
+             Container("M", (("p", "M_X"),), base="CCSDSPacket", criteria=(Cmp("PKT_APID", ">", "4"),)))
     return Doc(tuple(ptypes.values()), tuple(params.values()), conts)
 
 
@@ -315,6 +317,17 @@ def _task_one(task):
                     for use_raw in (False, True):
                         check_dataset(t, defn, doc, [write(pk)], pk, use_raw, {**base_case, "variant": "same field set, two field orders", "seq": list(seq),
                                                                                "use_raw_values": use_raw, "packets": [p.hex() for p in pk]}, string_encoded)
+            # (f) packet files are packet files whatever their first bytes look like: first packets whose header words spell the magic numbers
+            # of gzip (1f 8b), bzip2 (42 5a), xz (fd 37), zstd (28 b5), zip (50 4b), and a UTF-8 byte order mark (ef bb)
+            for magic in ("1f8b", "425a", "fd37", "28b5", "504b", "efbb"):
+                w = int(magic, 16)
+                first = framing.mk_packet(bytes([0x68 if magic == "425a" else 0x5A]), version=w >> 13, type_=(w >> 12) & 1, shflag=(w >> 11) & 1, apid=w & 0x7FF,
+                                          seqflags={"1f8b": 0, "425a": 1}.get(magic, 3), seqcount={"425a": 0x2800}.get(magic, 0x0800))   # 1f 8b 08 .., 42 5a 68 ..
+                assert first[:2].hex() == magic
+                pk = [first] + b_pkts + [first]
+                for use_raw in (False, True):
+                    check_dataset(t, defn, doc, [write(pk)], pk, use_raw, {**base_case, "variant": f"file starting with the bytes {magic}", "use_raw_values": use_raw,
+                                                                           "packets": [p.hex() for p in pk]}, string_encoded)
             # (c) a polymorphic APID must be rejected with ValueError
             from space_packet_parser import xarr
             poly = [framing.mk_packet(bytes([0, 9]), apid=3), framing.mk_packet(bytes([1, 9]), apid=3, seqcount=1)]
